@@ -309,8 +309,8 @@ def getitem(I, ctx, obj, idx, node):
         i = norm_index(I, ctx, idx, seq_len(seq), node)
         if i is None or ctx.dead:
             return None
-        if seq.cap == 0:
-            ctx.kill()
+        if seq.cap == 0 or (concrete_int(i) is not None and concrete_int(i) >= seq.cap):
+            ctx.kill()           # len <= cap always: the in-range path does not exist
             return None
         return wrap(nth(I, ctx, seq, i), heap, ctx)
     if isinstance(seq, TailSeq):
@@ -365,6 +365,9 @@ def setitem(I, ctx, obj, idx, v, node):
     if isinstance(seq, SymSeq):
         i = norm_index(I, ctx, idx, seq_len(seq), node, 'store-index')
         if i is None or ctx.dead:
+            return
+        if concrete_int(i) is not None and concrete_int(i) >= seq.cap:
+            ctx.kill()
             return
         pf = position_flags(I, ctx, seq, i)
         ctx.put(obj, SymSeq([merge_value(pf[k], v, s) for k, s in enumerate(seq.slots)], seq.n, seq.flags))
@@ -1211,7 +1214,15 @@ def struct_key(I, ctx, v):
         return '<' + ' | '.join(f'{struct_key(I, ctx, g)}:{struct_key(I, ctx, a)}' for g, a in v.alts) + '>'
     if isinstance(v, (Ref, Snapshot)):
         c, heap = content(I, ctx, v)
+        if isinstance(c, SymObj):
+            return c.cls.__name__ + '{' + ' '.join(f'{k}={struct_key(I, ctx, wrap(x, heap, ctx))}' for k, x in c.fields.items()) + '}'
         return struct_key(I, ctx, wrap_seq(c, heap, ctx) if isinstance(c, (tuple, SymSeq)) else c)
+    if isinstance(v, BitSet):
+        return 'bits(' + ' '.join(struct_key(I, ctx, b) for b in v.bits) + ')'
+    if isinstance(v, TailSeq):
+        return f'tail({v.prefix}+' + ' '.join(struct_key(I, ctx, x) for x in v.items) + ')'
+    if isinstance(v, FlagSet):
+        return 'flags(' + ' '.join(struct_key(I, ctx, b) for b in v.flags.values()) + ')'
     return repr(v)
 
 
@@ -1363,7 +1374,7 @@ def _pop(I, ctx, recv, c, heap, args, kwargs, node):
     if i is None or ctx.dead:
         return None
     s_ = as_symseq(c)
-    if s_.cap == 0:
+    if s_.cap == 0 or (concrete_int(i) is not None and concrete_int(i) >= s_.cap):
         ctx.kill()
         return None
     val = nth(I, ctx, s_, i)
